@@ -70,7 +70,7 @@ def obnameOk (n : ObName) : Prop := n.o < 1073741824 ∧ n.c < 256 ∧ n.i.lengt
 
 def attrOk (a : Attr) : Prop :=
   a.label.length < 256 ∧ a.count < 1073741824 ∧ a.rc < 256 ∧ a.units.length < 256 ∧
-  ∀ vs, a.value = some vs → vs.length = a.count ∧ ∀ v ∈ vs, valOk a.rc v = true
+  ∀ vs ∈ a.value, vs.length = a.count ∧ ∀ v ∈ vs, valOk a.rc v = true
 
 /-- a cell of an invariant column is the template attribute; a cell without a value under a column that has a
 default value can only be written as ABSATR, which carries no characteristics of its own -/
@@ -88,13 +88,7 @@ def Table.wf (t : Table) : Prop :=
   (∀ r ∈ t.rows, rowOk t.cols r) ∧ (t.rows.map Row.name).Nodup
 
 instance : DecidablePred obnameOk := fun n => by unfold obnameOk; infer_instance
-instance : DecidablePred attrOk := fun a => by
-  unfold attrOk
-  cases h : a.value with
-  | none => simp; infer_instance
-  | some vs =>
-    simp only [Option.some.injEq, forall_eq']
-    infer_instance
+instance : DecidablePred attrOk := fun a => by unfold attrOk; infer_instance
 instance (col : Column) : DecidablePred (cellOk col) := fun c => by unfold cellOk; infer_instance
 instance (cols : List Column) : DecidablePred (rowOk cols) := fun r => by unfold rowOk; infer_instance
 instance : DecidablePred Table.wf := fun t => by unfold Table.wf; infer_instance
@@ -125,17 +119,22 @@ def b2n (b : Bool) : Nat := if b then 1 else 0
 def attrDesc (role : Nat) (l c r u v : Bool) : Nat :=
   role + 16 * b2n l + 8 * b2n c + 4 * b2n r + 2 * b2n u + b2n v
 
+/-- the characteristic fields of a component, in the order L C R U V, for the flags given -/
+def encAttrBody (l c r u v : Bool) (a : Attr) : Bytes :=
+  (if l then encIdent a.label else []) ++ ((if c then encUvari a.count else []) ++ ((if r then [a.rc] else []) ++
+   ((if u then encIdent a.units else []) ++ (if v then encValues a.rc (a.value.getD []) else []))))
+
 /-- an attribute component with role `role`, relative to the defaults `d`: a characteristic is written unless the
 producer chose to omit it *and* it equals the default; a value is written only if there is one -/
+def wantL (d a : Attr) (ch : AttrChoice) : Bool := !(ch.omitL && a.label == d.label)
+def wantC (d a : Attr) (ch : AttrChoice) : Bool := !(ch.omitC && a.count == d.count)
+def wantR (d a : Attr) (ch : AttrChoice) : Bool := !(ch.omitR && a.rc == d.rc)
+def wantU (d a : Attr) (ch : AttrChoice) : Bool := !(ch.omitU && a.units == d.units)
+def wantV (d a : Attr) (ch : AttrChoice) : Bool := a.value.isSome && !(ch.omitV && a.value == d.value)
+
 def encAttr (role : Nat) (d a : Attr) (ch : AttrChoice) : Bytes :=
-  let l := !(ch.omitL && a.label == d.label)
-  let c := !(ch.omitC && a.count == d.count)
-  let r := !(ch.omitR && a.rc == d.rc)
-  let u := !(ch.omitU && a.units == d.units)
-  let v := a.value.isSome && !(ch.omitV && a.value == d.value)
-  attrDesc role l c r u v ::
-    ((if l then encIdent a.label else []) ++ (if c then encUvari a.count else []) ++ (if r then [a.rc] else []) ++
-     (if u then encIdent a.units else []) ++ (if v then encValues a.rc (a.value.getD []) else []))
+  attrDesc role (wantL d a ch) (wantC d a ch) (wantR d a ch) (wantU d a ch) (wantV d a ch) ::
+    encAttrBody (wantL d a ch) (wantC d a ch) (wantR d a ch) (wantU d a ch) (wantV d a ch) a
 
 def encCols : List Column → List AttrChoice → Bytes
   | [], _ => []
@@ -194,11 +193,14 @@ structure ItemLayout where
   ch : Choices := {}
   deriving Repr, Inhabited
 
+/-- the (unencrypted) logical record of an item -/
+def plainRec (it : Item) (lay : ItemLayout) : Rec :=
+  match it with
+  | .eflr ty t => ⟨false, true, ty, encodeEflr t lay.ch⟩
+  | .iflr ty n f d => ⟨false, false, ty, encIflr n f d⟩
+
 def encItem (it : Item) (lay : ItemLayout) : List Rec :=
-  lay.junk.map (fun r => { r with encrypted := true }) ++
-    [match it with
-     | .eflr ty t => ⟨false, true, ty, encodeEflr t lay.ch⟩
-     | .iflr ty n f d => ⟨false, false, ty, encIflr n f d⟩]
+  lay.junk.map (fun r => { r with encrypted := true }) ++ [plainRec it lay]
 
 def encItems : List Item → List ItemLayout → List Rec
   | [], _ => []
